@@ -102,10 +102,17 @@ def u_compute_value(ctx, index):
   k_ = z3.Int('k?')
 
   def times(fr):
-    now = fr['now']
-    cur = fr['current_interval']
-    thr = fr['age_threshold']
-    return now, cur, thr
+    # the three time values of a flush are functions of the one clock read and the settings; the
+    # code's own temporaries are used when they carry the usual names (cheaper VCs), the defining
+    # expressions otherwise, so that renaming a local does not disturb the contract
+    try:
+      return fr['now'], fr['current_interval'], fr['age_threshold']
+    except KeyError:
+      t = h.clock.reads[-1]
+      now = z3.If(t >= 0, z3.ToInt(t), -z3.ToInt(-t))
+      cur = now - now % h.freq
+      thr = cur - h.max_iv * h.freq
+      return now, cur, thr
 
   def pre0(fr):
     st['old'] = ib.snapshot()
